@@ -75,7 +75,7 @@ Proof.
     { intros y Ey. apply (eff_trans _ _ _ 1 0 Ey (eff_giveup y i)). }
     destruct (c_res (cand_at cands i)); simpl; auto.
     + apply GT. destruct (g_also g) as [a|]; auto.
-      destruct (c_exit (cand_at cands i) =? a)%Z; auto.
+      destruct (negb (c_norun (cand_at cands i)) && (c_exit (cand_at cands i) =? a)%Z); auto.
       apply (eff_trans _ _ _ 1 0 AF (eff_extra _)).
     + destruct (negb (g_silent g)); simpl; auto.
       pose proof (eff_report (add_failure x)) as E. destruct (report_bug g (add_failure x)) as [[c r] x'].
